@@ -125,7 +125,8 @@ def exec_case(ctx, spec):
             if op == "step":
                 classes.add("call:step")
                 start_knobs = OF.knob_vector(b)
-                opt.step(call["n"], take_best=call["take_best"], broyden=call["broyden"])
+                opt.step(call["n"], take_best=call["take_best"], broyden=call["broyden"], rcond=spec.get("rcond"),
+                         sing_val_cutoff=spec.get("sing_val_cutoff"))
                 log = opt._log
                 L = len(log["penalty"])
                 i_start = L0          # the row step() adds for its starting point
@@ -260,7 +261,7 @@ def exec_case(ctx, spec):
 
 
 def run(ctx):
-    drive(ctx, cases(), lambda c: exec_case(ctx, c), ctx.n(250, 2500), salt=1, label="C15")
+    drive(ctx, cases(), lambda c: exec_case(ctx, c), ctx.n(600, 4000), salt=1, label="C15")
 
 
 def replay(ctx, case):
